@@ -143,6 +143,9 @@ func buildImporter(k *vlib.Case, ctx context.Context, dserv ipld.DAGService) (ip
 	if r.Chance(1, 8) && n >= 1024 {
 		spec = vlib.Pick(r, []string{"rabin-64-128-256", "rabin-48-96-512"})
 		chunk = 128
+		if n > 2500*96 { // same bound on the number of blocks as for size-N
+			n = r.Range(1024, 2500*96)
+		}
 	}
 	pref := vlib.Pick(r, prefixes)
 	raw := pref.p.Version > 0
@@ -353,7 +356,7 @@ func (o obs) bad() bool { return o.hung || o.pan != nil }
 
 // do runs one reader call under recover and a progress-based hang monitor: the
 // call is declared hung only when it has not returned AND the DAG service saw
-// no block request for 30 s (a reader that is merely slow on a loaded machine
+// no block request for 120 s (a reader that is merely slow on a loaded machine
 // keeps fetching blocks; a walker that spins does not). vlib.Guard then attaches
 // the two goroutine dumps and aborts the batch.
 func (w *world) do(op string, fn func(o *obs)) obs {
@@ -383,7 +386,7 @@ wait:
 				w.k.C.Count("slow_op_polls_with_progress", 1)
 				continue
 			}
-			if idle++; idle >= 15 {
+			if idle++; idle >= 60 {
 				if !vlib.Guard(w.k, op, time.Second, func() { <-done }) {
 					return obs{hung: true}
 				}
